@@ -274,7 +274,7 @@ def parseCfg (cfg : String) : St × List String :=
     | _ => r) routes1
   let now := 1700000000
   let e2e0 := ((now <<< 20) ||| 7) &&& 0xffffffff
-  let cfg : Cfg := { host := kv "host" "node.local", realm := realm0, listen := kv "listen" "1" == "1",
+  let cfg : Cfg := { host := kv "host" "node.local", realm := realm0, listen := kv "listen" "1" == "1", addrs := num "addrs" 1,
                      cea := num "cea" 4, cer := num "cer" 4, dwa := num "dwa" 4, idle := num "idle" 30,
                      rq := num "rq" 10240, stateId := now }
   ({ cfg := cfg, now := now, peers := peers, apps := apps, tapps := apps.map (fun _ => {}), routes := routes2, e2e := e2e0, nextHbhSeed := 2000 }, [])
